@@ -426,7 +426,8 @@ def run_impl(ctx, cases, lines):
                 return "xskipped"
             try:
                 mv = vc.parse(exp[j])
-                want = [[p[3], p[4]] for p in mv[1]] if cases[i][0] == 4 else mv[1]
+                # kind 6: (stopped ...) per edit, in the layout of kind 3's (err stopped ...) the child reads
+                want = [[p[3], p[4]] for p in mv[1]] if cases[i][0] == 4 else [[0] + list(p) for p in mv[1:]]
             except Exception:
                 return "xmodelcrash"
             data = (lines[i] + "\n" + vc.show(want) + "\n").encode()
@@ -448,8 +449,6 @@ def run_impl(ctx, cases, lines):
 def as_model_line(vc, c, ln):
     if c[0] == 0 and len(c) > 6:
         return vc.show(c[:6])
-    if c[0] == 6:
-        return vc.show([3] + c[1:6])      # the lock-step thread is the stepped reloader of the model
     return ln
 
 
@@ -556,22 +555,16 @@ def compare(c, impl, model):
         return None if len(impl[1]) == len(model[1]) else "number of polls differs"
     if k == 6:
         where = "real init_file + refresh thread in lock step%s" % (", config path a re-pointed symbolic link" if c[6] else "")
-        if not impl or impl[0][0] != 0:
-            return "%s: the refresh thread never asked to sleep although the document has a refresh_rate" % where
-        first = model[0][c[3][1]][1][0] if model[0][c[3][1]] and model[0][c[3][1]][1] else None
-        if impl[0][1] != first:
-            return "%s: first interval asked for %r ms, the document says %r ms" % (where, impl[0][1], first)
-        for n, (a, b) in enumerate(zip(impl[1:], model[1])):
-            # b = (err stopped rate active nset); a = (stopped asked active nset)
+        if not impl or not model:
+            return "%s: no observation" % where
+        if impl[0] != model[0]:
+            return "%s: first sleep (0 interval | 1 = no thread) %r, model (Reloader.init_file / sleeps) %r" % (where, impl[0], model[0])
+        for n, (a, b) in enumerate(zip(impl[1:], model[1:])):
             act = ACTIONS[c[5][n]] if n < len(c[5]) else "?"
-            if a[0] != b[1]:
-                return "%s, poll %d (%s): refresh thread %s, model: %s" % (
-                    where, n + 1, act, "stopped" if a[0] else "goes on", "stopped" if b[1] else "goes on")
-            if not a[0] and a[1] != b[2]:
-                return "%s, poll %d (%s): the thread asked to sleep %r ms, model %r ms" % (where, n + 1, act, a[1], b[2])
-            if a[2:] != b[3:]:
-                return "%s, poll %d (%s): (active config, #set_config) = %r, model %r" % (where, n + 1, act, a[2:], b[3:])
-        return None if len(impl) == len(model[1]) + 1 else "number of polls differs"
+            if a != b:
+                return "%s, poll %d (%s): (stopped, interval asked for, active config, #set_config) = %r, model %r" % (
+                    where, n + 1, act, a, b)
+        return None if len(impl) == len(model) else "number of polls differs"
     if k == 4:
         want = [[p[3], p[4]] for p in model[1]]
         for n, (a, b) in enumerate(zip(impl, want)):
